@@ -308,7 +308,7 @@ class SpooledBytesIO(SpooledIOBase):
 
         if self.tell() + len(s) >= self._max_size:
             self.rollover()
-        self.buffer.write(s)
+        return self.buffer.write(s)
 
     def seek(self, pos, mode=0):
         self._checkClosed()
@@ -416,6 +416,7 @@ class SpooledStringIO(SpooledIOBase):
             self.rollover()
         self.buffer.write(s.encode('utf-8'))
         self._tell = current_pos + len(s)
+        return len(s)
 
     def _traverse_codepoints(self, current_position, n):
         """Traverse from current position to the right n codepoints"""
